@@ -68,16 +68,13 @@ uint64_t run_seed(const Args &a, uint64_t i) {
     return mix2(mix2(a.seed, h), i);
 }
 Plan plan_for_index(const Args &a, int armed, uint64_t i, uint64_t nbase) {
-    if (i < nbase) return baseline_plan(a.engine, armed, i);
-    return generate_plan(a.engine, armed, run_seed(a, i - nbase), a.tier == "thorough");
+    Plan p = i < nbase ? baseline_plan(a.engine, armed, i) : generate_plan(a.engine, armed, run_seed(a, i - nbase), a.tier == "thorough");
+    plan_avoid_known(p);
+    return p;
 }
 
 // signature of a violation for the known-findings list: "<prop>:<class>@<OPKIND>[+FLAG...]"
-std::string flags_sig(int kind, uint32_t f) {
-    std::string s = op_name(kind);
-    if (kind == P_INIT) { if (f & F_NULLCB) s += "+NULLCB"; if (f & F_SYSTEM) s += "+SYSTEM"; }
-    return s;
-}
+std::string flags_sig(int kind, uint32_t f) { return op_sig(kind, f); }
 
 struct ChildResult {
     bool ok = false;          // child produced a result
@@ -865,6 +862,7 @@ int main(int argc, char **argv) {
         else if (a.mode == "replay" && a.file.empty()) a.file = k;
         else { fprintf(stderr, "unknown argument %s\n", k.c_str()); return 2; }
     }
+    for (auto &kf : a.known) g_known_hard.push_back(kf);
     if (a.mode == "run") return cmd_run(a);
     if (a.mode == "replay") return cmd_replay(a);
     if (a.mode == "show") return cmd_show(a);
